@@ -66,6 +66,9 @@ package omap
 //@   ensures  [C04] members: m.m != nil ==> forall i int :: {src[i]} 0 <= i && i < len(result) ==> rank(m.m.compare, src[i]) in m.m.elems
 //@   ensures  [C04] stored: m.m != nil ==> forall i int :: {src[i]} 0 <= i && i < len(result) ==> src[i] == m.m.vals[rank(m.m.compare, src[i])]
 //@   ensures  [C04] ascending: m.m != nil ==> forall a int, b int :: {src[a], src[b]} 0 <= a && a < b && b < len(result) ==> rank(m.m.compare, src[a]) < rank(m.m.compare, src[b])
+//@   ensures  [C04] first: m.m != nil && len(result) > 0 ==> forall k int :: {k in m.m.elems} k in m.m.elems ==> k >= rank(m.m.compare, src[0])
+//@   ensures  [C04] nogap: m.m != nil ==> forall a int, b int, k int :: {src[a], src[b], k in m.m.elems} 0 <= a && b == a + 1 && b < len(result) && k in m.m.elems ==> !(rank(m.m.compare, src[a]) < k && k < rank(m.m.compare, src[b]))
+//@   ensures  [C04] last: m.m != nil && len(result) > 0 ==> forall k int :: {k in m.m.elems} k in m.m.elems ==> k <= rank(m.m.compare, src[len(result) - 1])
 //@   at loop 1 exit: ghost src = yarg1
 //@   loop 1: invariant [C04] len(out) == it1 && fresh(out) && old_arrays_unchanged(out) && forall k int :: {yret1[k]} 0 <= k && k < it1 ==> yret1[k]
 //@   loop 1: invariant [C04] members: forall i int :: {out[i]} 0 <= i && i < len(out) ==> out[i] == yarg1[i].Key
